@@ -185,7 +185,54 @@ def run(ck):
         got = mo.split(" | ")[0].split(" ") if mo else []
         if got != levels:
             ck.violation("placement-matrix", "level-differs-from-model", bytes.fromhex(line.split(" ")[2]).decode(), " ".join(got), " ".join(levels), detail=ml, kind="correspondence")
+    errors_untouched(ck)
     ck.samples.append({"stream": "placement-matrix", "case": bytes.fromhex(lines[len(lines) // 2].split(" ")[2]).decode(), "options": lines[len(lines) // 2].split(" ")[1], "model_input": mlines[len(mlines) // 2], "model": m[len(m) // 2], "impl": o[len(lines) // 2][-300:]})
     ck.extra["exhaustive"] = True
     ck.extra["rule"] = "%d scenarios (lint kind x position) x every placement x 5 argument sets (+ lower/upper-case command-line values, + random double placements): %d template programs; distinct by program text and options" % (len(SCENARIOS), len(cases))
     ck.partial.append("DuplicateFile (no span, no scope, command line only) is exercised by the file-set check (C17); the generator request is compared in C08")
+
+
+ERROR_PROGRAMS = [
+    "module M\n%(def)senum E : int8 {}\n/// {@link Nope}\nstruct S {}\n",
+    "module M\n%(def)sstruct S { %(member)stag(1) a: int32 }\n[deprecated] struct Old {}\nstruct U { o: Old }\n",
+    "module M\n%(def)sstruct S { %(member)sa: Nope }\n",
+    "module M\n%(def)sstruct S { a: int32 }\n%(def)sstruct S { b: bool }\n",
+    "module M\n%(def)sstruct S { %(member)sa: S }\n",
+    "module M\n%(def)sinterface I { %(member)sop(stream a: int32, b: int32) }\n/// @param x: y\nstruct T {}\n",
+    "module M\n%(def)sstruct S { a: }\n",
+    "module M\n%(def)scompact struct S {}\n[deprecated] custom C\ntypealias A = C\n",
+]
+
+
+def errors_untouched(ck):
+    """errors are never silenced: whatever is allowed, wherever, every error keeps its level and the error total is unchanged"""
+    lines, meta = [], []
+    for prog in ERROR_PROGRAMS:
+        for cli in ([], ["All"], ["all"], LINTS, ["Deprecated", "All"]):
+            for slots in ({}, {"file0": "[[allow(All)]]\n"}, {"def": "[allow(All)] "}, {"member": "[allow(All)] "}, {"def": "[allow(All)] ", "member": "[allow(Deprecated, BrokenDocLink)] ", "file0": "[[allow(All)]]\n"}):
+                text = slots.get("file0", "") + prog % {"def": slots.get("def", ""), "member": slots.get("member", "")}
+                opts = ",".join("A:" + c for c in cli) or "-"
+                lines.append("dump %s %s" % (opts, hx(text)))
+                meta.append((text, cli, slots, prog))
+    o = core.run_impl("dump", lines, chunk=100, timeout=120)
+    base = {}
+    ck.stream("errors-untouched", description="8 programs with an error of a different phase each (empty enum, tag on a non-optional, unresolved type, redefinition, cycle, stream rule, syntax, empty compact struct), "
+              "some also raising lints, x command-line allow lists (All, all, every lint, Deprecated+All) x allow(All) on the file, the definition, the member, and all three at once: "
+              "every error keeps level Error and the set of errors equals that of the unsuppressed program")
+    for (text, cli, slots, prog), line, oo in zip(meta, lines, o):
+        ck.count("errors-untouched", line, kind="cli" if cli else ("attrs" if slots else "none"))
+        _, diags = split_dump(oo)
+        if diags is None:
+            ck.violation("errors-untouched", "crash", text, "a result", oo[:200])
+            continue
+        errs = sorted((d["code"], d["msg"]) for d in diags if d["code"].startswith("E") and d["code"][1:].isdigit())
+        silenced = [d for d in diags if d["code"].startswith("E") and d["code"][1:].isdigit() and d["level"] != "Error"]
+        if silenced:
+            ck.violation("errors-untouched", "error-silenced", text, "%s keeps level Error (cli=%s, attributes=%s)" % (silenced[0]["code"], cli, sorted(slots)), silenced[0]["level"],
+                         signature={"placement": "cli" if cli else "+".join(sorted(slots))})
+        if not cli and not slots:
+            base[prog] = errs
+        elif prog in base and errs != base[prog]:
+            ck.violation("errors-untouched", "errors-changed-by-suppression", text, repr(base[prog])[:200], repr(errs)[:200])
+        if not errs:
+            ck.violation("errors-untouched", "generator-invalid", text, "an error", "none", kind="correspondence")
